@@ -27,5 +27,8 @@ def harnesses(ctx, tier):
                 unwind_funcs={"strcmp": 4, "strlen": 4, "vf_wr": 100, "yr_arena_ptr_to_ref": 3, "memcpy": 100, "memcmp": 10},
                 desc="yr_rules_define_string_variable (real) followed by yr_arena_save_stream (real) on an arena holding a string external",
                 bounds="one string external, 1-character values", functions=["yr_rules_define_string_variable", "yr_arena_save_stream", "yr_arena_ptr_to_ref"]),
+        Harness(name="H5_ac_table_growth", src="c05/ac_slot.c", unwind=6, timeout=600, unwind_funcs={"_yr_arena_allocate_memory": 12},
+                desc="_yr_ac_find_suitable_transition_table_slot: for ANY slot the packing heuristic may return, the state's 257 transition entries lie inside the accounted (saved) table size",
+                bounds="tables_size 257..600, slot 0..tables_size", functions=["_yr_ac_find_suitable_transition_table_slot", "yr_arena_allocate_zeroed_memory"], stubs=["yr_bitmask_find_non_colliding_offset -> any offset <= tables_size"]),
     ]
     return hs
